@@ -260,20 +260,20 @@ func (r *Report) Finish(verif string, level string, floors floorsFile, known *Kn
 		ruleText = append(ruleText, k+": "+r.Rules[k])
 	}
 	cov := map[string]any{
-		"explanation":         explanation + "  Rules applied: " + strings.Join(ruleText, " | "),
-		"evaluations":         nOb,
-		"distinct_nontrivial": len(distinct),
-		"rule":                "one case = one obligation (rule instance at one construct of /repo's current source, keyed rule/function/role); distinct = distinct obligation keys; non-trivial = the anchored construct was found and examined (info lines are not counted)",
-		"samples":             samples,
-		"obligations":         nOb,
-		"discharged":          nDis,
-		"checker_cmd":         fmt.Sprintf("/verif/bin/sidcheck -property %s -tier %s", r.Property, r.Tier),
-		"trusted_base":        trusted,
-		"per_rule":            ruleStats,
-		"analysed":            r.Analysed,
+		"explanation":            explanation + "  Rules applied: " + strings.Join(ruleText, " | "),
+		"evaluations":            nOb,
+		"distinct_nontrivial":    len(distinct),
+		"rule":                   "one case = one obligation (rule instance at one construct of /repo's current source, keyed rule/function/role); distinct = distinct obligation keys; non-trivial = the anchored construct was found and examined (info lines are not counted)",
+		"samples":                samples,
+		"obligations":            nOb,
+		"discharged":             nDis,
+		"checker_cmd":            fmt.Sprintf("/verif/bin/sidcheck -property %s -tier %s", r.Property, r.Tier),
+		"trusted_base":           trusted,
+		"per_rule":               ruleStats,
+		"analysed":               r.Analysed,
 		"known_findings_matched": len(knownHit),
-		"canaries":            map[string]any{"expected": len(canaryExpect), "failed": len(canaryFail), "skipped": canarySkipped != ""},
-		"exhaustive":          true,
+		"canaries":               map[string]any{"expected": len(canaryExpect), "failed": len(canaryFail), "skipped": canarySkipped != ""},
+		"exhaustive":             true,
 	}
 	if r.Thorough != nil {
 		cov["thorough"] = r.Thorough
